@@ -1426,7 +1426,9 @@ bool WFXMLScanner::scanStartTagNS(bool& gotData)
         // which have been bound to namespace names that are identical. 
         XMLAttr* loopAttr;
         XMLAttr* curAtt;
-        for (unsigned int attrIndex=0; attrIndex < attCount-1; attrIndex++) {
+        // with the registry every attribute, the last one included, has to be looked up
+        const XMLSize_t loopCount = toUseHashTable ? attCount : attCount-1;
+        for (unsigned int attrIndex=0; attrIndex < loopCount; attrIndex++) {
             loopAttr = fAttrList->elementAt(attrIndex);
 
             if (!toUseHashTable)
